@@ -132,6 +132,8 @@ def time_input(name, seconds, carrier='dt64'):
             raise ValueError('instants not representable in the carrier unit')
         return Vec.fresh(cells, kind='dtindex' if carrier.startswith('dtindex') else 'series', dtype='M8', unit=unit, owner=name)
     if carrier == 'pydatetime':
+        return [TS(s, py=True) for s in secs]
+    if carrier == 'timestamp_list':
         return [TS(s) for s in secs]
     raise ValueError(carrier)
 
